@@ -508,6 +508,7 @@ func (u *Unit) execIndexAddr(fr *Frame, i *ssa.IndexAddr, st *State, reach Term)
 	case *types.Slice:
 		ln := sLen(x.T)
 		u.instantiateAt(idx.T)
+		u.noteIndexTerm(idx.T)
 		u.oblige("safety", reach, and(app("Bool", "<=", intLit(0), idx.T), app("Bool", "<", idx.T, ln)), "safety.index", "", "slice index in range")
 		return Val{Loc: &Loc{Kind: LElem, Base: u.def(sArr(x.T)), Index: u.def(app("Int", "+", sOff(x.T), idx.T)), Elem: et}, Typ: i.Type()}
 	case *types.Pointer:
